@@ -11,7 +11,7 @@
 From Coq Require Import List NArith ZArith Bool.
 From NV Require Import Syntax.Token Syntax.Ast Syntax.StmtAst Syntax.Parser Syntax.Grammar
      Syntax.ParserProofs Syntax.GrammarProofs Syntax.OpTableCheck Syntax.LexTable Syntax.FuelProofs
-     Syntax.SoundProofs Syntax.TypeGrammar Syntax.TypeProofs Syntax.StmtGrammar Syntax.StmtProofs Gen.OpTable.
+     Syntax.SoundProofs Syntax.TypeGrammar Syntax.TypeProofs Syntax.StmtGrammar Syntax.StmtProofs Syntax.Lexer Syntax.LexNumber Gen.OpTable.
 Import ListNotations.
 
 (* Every well-formed derivation tree, of any size and nesting depth, is read back as exactly
@@ -74,6 +74,28 @@ Theorem C10_roundtrip_program : forall lead i more trail,
   parse (pr_prog lead i more trail) = Ok (desugar_item i :: map (fun p => desugar_item (snd p)) more) [].
 Proof. exact roundtrip_program. Qed.
 Print Assumptions C10_roundtrip_program.
+
+(* The lexer on decimal number literals, beyond the finite tables (Syntax/LexNumber.v): `numlit` =
+   the documented number notation (digits with `_` separators that start and end with a digit, an
+   optional fraction `.digits` — also the forms `.234` and `2.` —, an optional exponent e/E with
+   optional sign), `num_stop rest` = the literal ends there (no digit, `_`, `.` or exponent follows).
+   For literals of any length and ANY Unicode identifier classes in which a digit does not start an
+   identifier: every literal of the grammar is exactly one Number token with that lexeme, and
+   conversely every Number token the tokenizer produces is a literal of the grammar and nothing else
+   was consumed. *)
+Theorem C10_lex_number : forall (xid_start xid_continue : N -> bool),
+  (forall c, is_ascii_digit c = true -> xid_start c = false) ->
+  forall (n : numlit) (rest : str) (d : nat),
+  wf_num n = true -> num_stop rest = true -> based_prefix (pr_num n ++ rest) = false ->
+  scan_single_token xid_start xid_continue d (pr_num n ++ rest) = LOk (Some (TNumber (pr_num n)), rest, d).
+Proof. exact lex_number_complete. Qed.
+Print Assumptions C10_lex_number.
+
+Theorem C10_lex_number_sound : forall (xid_start xid_continue : N -> bool) (d : nat) (cs l r : str) (d' : nat),
+  scan_single_token xid_start xid_continue d cs = LOk (Some (TNumber l), r, d') ->
+  exists n, wf_num n = true /\ l = pr_num n /\ cs = l ++ r /\ d' = d.
+Proof. exact lex_number_sound. Qed.
+Print Assumptions C10_lex_number_sound.
 
 (* Two well-formed renderings of the same tree (redundant parentheses, `per` vs `/`,
    `to` vs `->`, unary plus, `^-x` vs `^(-x)`) parse identically. *)
@@ -251,4 +273,19 @@ Example C10_ex_definitions_rejected :
   /\ wf_def u = false /\ parse (pr_def u) = Err ExampleUsedOnUnsuitableKind
   /\ srest [TNewline; TKw KWhere]%N = false
   /\ wf_ty (YPow (YMul (YIdent [65]%N None) (YIdent [66]%N None)) (XNum [50]%N)) = false.
+Proof. vm_compute. repeat split; reflexivity. Qed.
+
+(* number notation: the documented forms 12_345, .234, 1.234e+15, 1e-9 are literals of the grammar;
+   `1_`, `1._2`, `1e` are not *)
+Example C10_ex_numbers :
+  let n1 := mk_num [49; 50; 95; 51; 52; 53]%N None None in
+  let n2 := mk_num [] (Some [50; 51; 52]%N) None in
+  let n3 := mk_num [49]%N (Some [50; 51; 52]%N) (Some (101, Some 43, [49; 53]))%N in
+  let n4 := mk_num [49]%N None (Some (101, Some 45, [57]))%N in
+  wf_num n1 = true /\ wf_num n2 = true /\ wf_num n3 = true /\ wf_num n4 = true
+  /\ pr_num n3 = [49; 46; 50; 51; 52; 101; 43; 49; 53]%N
+  /\ wf_num (mk_num [49; 95]%N None None) = false
+  /\ wf_num (mk_num [49]%N (Some [95; 50]%N) None) = false
+  /\ wf_num (mk_num [49]%N None (Some (101, None, []))%N) = false
+  /\ num_stop [32; 109]%N = true /\ num_stop [101; 53]%N = false /\ num_stop [46]%N = false.
 Proof. vm_compute. repeat split; reflexivity. Qed.
